@@ -1,7 +1,7 @@
 (* C12 - the property theorems, nothing else.  Each is closed by [exact] of a lemma proved in Replay/*.v
    and followed by Print Assumptions. *)
 From Icv Require Import Base.Tac Replay.RlBytes Replay.RlModel Replay.RlBytesProofs Replay.RlProofs Replay.RlHistory Replay.RlHistoryProofs Replay.RlObs Replay.RlOracleProofs
-  Replay.RlSize Replay.RlSizeProofs Replay.RlCompact Replay.RlCompactProofs Replay.RlBoundary Facts.Facts_c12.
+  Replay.RlSize Replay.RlSizeProofs Replay.RlFixed Replay.RlFixedProofs Replay.RlCompact Replay.RlCompactProofs Replay.RlBoundary Facts.Facts_c12.
 From Coq Require Import Sorting.Sorted.
 Local Open Scope Z_scope.
 
@@ -269,11 +269,20 @@ Print Assumptions C12_record_model_ops.
    (timestamp below 10^15, encoding shorter than 10^9 bytes).  Then the byte-level ReplayLog emits the expansion of what the
    record-level one emits, and the decodable entries of the directory are exactly the recorded ones. *)
 Theorem C12_record_model_replay : forall t now ep st, rl_x_ok st ->
-  let rx := rl_x_replay t now ep st in
+  let rx := rl_x_replay false t now ep st in
   let rb := rl_replay t now ep (rl_x_conc st) in
   rl_rr_out rb = rl_x_out_bytes (rl_xrr_out rx) /\ rl_rr_done rb = rl_xrr_done rx /\ rl_rr_st rb = rl_x_conc (rl_xrr_st rx).
 Proof. exact rl_x_conc_replay. Qed.
 Print Assumptions C12_record_model_replay.
+
+(* the same for every form of ReplayLog (with / without the SetLogPosition emission, with / without the timestamp bound),
+   in particular for the one the source has now, which is what the run executes (rl_replay_src / rl_x_replay_src) *)
+Theorem C12_record_model_replay_forms : forall emit bound t now ep st, rl_x_ok st ->
+  let rx := rl_x_replay_fe emit bound t now ep st in
+  let rb := rl_replay_fe emit bound t now ep (rl_x_conc st) in
+  rl_rr_out rb = rl_x_out_bytes (rl_xrr_out rx) /\ rl_rr_done rb = rl_xrr_done rx /\ rl_rr_st rb = rl_x_conc (rl_xrr_st rx).
+Proof. exact rl_x_conc_replay_fe. Qed.
+Print Assumptions C12_record_model_replay_forms.
 
 Theorem C12_record_model_entries : forall st, rl_x_ok st -> rl_log_entries (rl_x_conc st) = map rl_xe_entry (rl_x_log_entries st).
 Proof. exact rl_x_conc_entries. Qed.
@@ -322,6 +331,57 @@ Print Assumptions C12_rotate_keeps.
 Theorem C12_source_forms : f_rl_rotate_never_overwrites = Some true /\ f_rl_replay_skip_le = Some true.
 Proof. exact rl_src_rotate_form. Qed.
 Print Assumptions C12_source_forms.
+
+(* ------------------------------------------ the two recorded findings: repaired forms ------------------------------------------ *)
+(* ReplayLog as a function of two regenerated facts: emit (log::SetLogPosition sent during the replay: true today; false with
+   repo_patches/c12-replaylog-no-setlogposition.diff) and bound (an entry with timestamp >= the name bound of its file is
+   treated as corruption: false today; true with repo_patches/c12-replaylog-bound-timestamp.diff).  The forms are recognised,
+   and (true, false) is the ReplayLog all other theorems are about. *)
+Theorem C12_replay_forms_recognised : rl_src_forms_recognised = true.
+Proof. exact rl_replay_forms_recognised. Qed.
+Print Assumptions C12_replay_forms_recognised.
+
+Theorem C12_replay_pinned_form : forall t now ep st, rl_replay_fe true false t now ep st = rl_replay t now ep st.
+Proof. exact rl_replay_fe_pinned. Qed.
+Print Assumptions C12_replay_pinned_form.
+
+(* C12_replayed for EVERY form, in every reachable state (clock not behind the state's): the same messages - exactly the owed
+   entries in order -, the last pass reached, the same state afterwards: neither repair changes what an undamaged log replays *)
+Theorem C12_replayed_forms : forall emit bound t now ep c st,
+  rl_hinv c st -> c <= now -> rl_ep_dur ep <> 0 ->
+  let r := rl_replay_fe emit bound t now ep st in
+  rl_msgs (rl_rr_out r) = map rl_e_msg (filter (rl_sel t (rl_ep_zone ep) (rl_ep_pos ep)) (rl_log_entries st)) /\
+  rl_rr_done r = true /\ rl_rr_st r = rl_rr_st (rl_replay t now ep st).
+Proof. exact rl_replayed_forms. Qed.
+Print Assumptions C12_replayed_forms.
+
+(* replay-setlogposition-acks-wrong-log, repaired (emit = false): whatever the peer's ReplayLog sends - same code, ANY state
+   of the peer - handling it leaves our state as it was, and our replay then sends everything owed *)
+Theorem C12_setpos_fixed : forall bound t now ep c st tp nowp epp stp,
+  rl_hinv c st -> c <= now -> rl_ep_dur ep <> 0 ->
+  let emitted_by_peer := rl_rr_out (rl_replay_fe false bound tp nowp epp stp) in
+  let st' := rl_feed_acks (rl_ep_id ep) emitted_by_peer st in
+  st' = st /\
+  rl_msgs (rl_rr_out (rl_replay_fe false bound t now ep st')) =
+    map rl_e_msg (filter (rl_sel t (rl_ep_zone ep) (rl_ep_pos ep)) (rl_log_entries st)).
+Proof. exact rl_setpos_fixed. Qed.
+Print Assumptions C12_setpos_fixed.
+
+(* corrupt-timestamp-hides-later-entries, repaired (bound = true), on the witness of C12_corrupt_ts_refuted: the file with the
+   overwritten digit is abandoned at the damaged entry, the entry of the other file is delivered; and in general replaying a
+   file, whatever its bytes, leaves peer_ts below the file's name bound (or where it was) *)
+Theorem C12_corrupt_ts_fixed :
+  let st := rl_w_st (rl_set_byte rl_w_off 57 rl_w_file) in
+  rl_msgs (rl_rr_out (rl_replay_f true rl_w_topo 40 rl_w_ep st)) = [rl_mk_msg 3 30] /\
+  rl_msgs (rl_rr_out (rl_replay_f false rl_w_topo 40 rl_w_ep st)) = [rl_mk_msg 1 10] /\
+  rl_msgs (rl_rr_out (rl_replay_f true rl_w_topo 40 rl_w_ep (rl_w_st rl_w_file))) = [rl_mk_msg 1 10; rl_mk_msg 2 20; rl_mk_msg 3 30].
+Proof. exact rl_corrupt_ts_fixed. Qed.
+Print Assumptions C12_corrupt_ts_fixed.
+
+Theorem C12_bound_limits_peer : forall t tz s f,
+  rl_r_peer (rl_replay_file_f true t tz s f) <= Z.max (rl_r_peer s) (fst f - 1).
+Proof. exact rl_bound_limits_peer. Qed.
+Print Assumptions C12_bound_limits_peer.
 
 (* non-vacuity: a concrete two-file log meets the premises of C12_replayed and entries are owed *)
 Example C12_nonvacuous :
